@@ -40,7 +40,8 @@ ECC = {'header': ['--max_block_size', '40', '-s', '200', '-r', '0.3'],
 
 
 def scenario(name):
-    """-> list of problems (empty = holds).  name: 'C03-header', 'C03-whole', 'C01-header', 'C01-whole', 'C05', 'C18'."""
+    """-> list of problems (empty = holds).  name: 'C03-header', 'C03-whole', 'C01-header', 'C01-whole', 'C05', 'C18', 'C15',
+    'C16', 'C17', 'C19', 'C20' (the last five also go through command aliases: hecc, recc, rfigc, resilience_tester)."""
     d = tempfile.mkdtemp(prefix='pffcli')
     bad = []
     try:
@@ -92,6 +93,78 @@ def scenario(name):
                 bad.append({'step': 'dup output', 'differing': [k for k in FILES if got.get(k) != FILES[k]]})
             if rc != 0:
                 bad.append({'step': 'dup with database, report and -l: every path restored and hash-correct', 'exit': rc, 'expected': 0, 'tail': out[-300:]})
+        elif name == 'C15':
+            # `pff recc` (alias of recover): every marker of the header ecc file overwritten, index intact -> identical to the pristine file
+            rc, out = pff(['hecc', '-i', 'in', '-d', 'ecc.db', '-g', '-f', '-l', 'gen.log'] + ECC['header'], d)
+            pristine = open(d + '/ecc.db', 'rb').read()
+            dam = bytearray(pristine)
+            n_mk = 0
+            for pat in (b'\xfe\xff' * 5, b'\xfa\xff\xfa\xff\xfa'):
+                pos = dam.find(pat)
+                while pos >= 0:
+                    for i in range(len(pat)):
+                        dam[pos + i] = 0x41 + (i % 7)
+                    n_mk += 1
+                    pos = dam.find(pat, pos + len(pat))
+            open(d + '/dam.db', 'wb').write(bytes(dam))
+            rc, out = pff(['recc', '-i', 'dam.db', '--index', 'ecc.db.idx', '-o', 'rec.db', '-t', '0', '-f', '-l', 'rec.log'], d)
+            got = open(d + '/rec.db', 'rb').read() if os.path.exists(d + '/rec.db') else None
+            if got != pristine:
+                bad.append({'step': 'pff recc --index -t 0 after overwriting %d markers' % n_mk, 'exit': rc, 'identical_to_pristine': False,
+                            'differing_bytes': None if got is None else sum(1 for x, y in zip(got, pristine) if x != y) + abs(len(got) - len(pristine)), 'tail': out[-200:]})
+        elif name == 'C19':
+            before = read_tree(d + '/in')
+            rc, out = pff(['filetamper', '-i', 'in', '-m', 'e', '-p', '0', '-l', 't.log'], d)
+            if read_tree(d + '/in') != before:
+                bad.append({'step': 'filetamper -p 0 changed a file', 'exit': rc})
+            rc, out = pff(['filetamper', '-i', 'in/a.bin', '-m', 'e', '-p', '0.3', '--header', '100', '-l', 't2.log'], d)
+            after = read_tree(d + '/in')
+            a0, a1 = before['a.bin'], after.get('a.bin', b'')
+            if len(a1) != len(a0) or a1[100:] != a0[100:] or any(y != x and y != 0 for x, y in zip(a0, a1)) or \
+                    any(after.get(k) != v for k, v in before.items() if k != 'a.bin'):
+                bad.append({'step': 'filetamper on a single file, erasure mode, --header 100', 'exit': rc, 'length': [len(a0), len(a1)],
+                            'changed_beyond_header': a1[100:] != a0[100:], 'tail': out[-200:]})
+        elif name == 'C16':
+            rc, out = pff(['rfigc', '-i', 'in', '-d', 'db.csv', '-g', '-f', '-l', 'g.log'], d)
+            os.remove(d + '/in/sub/b.txt')
+            write_tree(d + '/in', {'new/n.txt': b'new file', 'top.bin': b'\x00\x01'})
+            rc, out = pff(['hash', '-i', 'in', '-d', 'db.csv', '-u', '-a', '-r', '-l', 'u.log'], d)
+            rc2, out2 = pff(['hash', '-i', 'in', '-d', 'fresh.csv', '-g', '-f', '--silent'], d)
+
+            def rows(pth):
+                import csv
+                with open(pth, newline='') as f:
+                    return sorted(tuple(x for i, x in enumerate(r) if i != 3) for r in csv.reader(f, delimiter='|') if r and r[0] != 'path')   # all but the date column
+            try:
+                ru, rf = rows(d + '/db.csv'), rows(d + '/fresh.csv')
+            except Exception as e:
+                ru, rf = repr(e), None
+            if ru != rf or rc != 0:
+                bad.append({'step': 'hash -u -a -r after one deletion and two additions vs a fresh generation', 'exit': rc, 'updated_rows': str(ru)[:300], 'fresh_rows': str(rf)[:300]})
+        elif name == 'C17':
+            rc, out = pff(['hash', '-i', 'in', '-d', 'db.csv', '-g', '-f', '--silent'], d)
+            os.makedirs(d + '/scr/x')
+            for i, (rel, c) in enumerate(sorted(FILES.items())):
+                if c:
+                    open(d + '/scr/x/f%d.chk' % i, 'wb').write(c)
+            open(d + '/scr/unknown.bin', 'wb').write(b'unknown content')
+            os.mkdir(d + '/rec')
+            rc, out = pff(['hash', '-i', 'scr', '-d', 'db.csv', '--filescraping_recovery', '-o', 'rec', '-l', 'r.log'], d)
+            got = read_tree(d + '/rec')
+            want = {k: v for k, v in FILES.items() if v}
+            if {k: v for k, v in got.items() if v} != want or any(k not in FILES for k in got):
+                bad.append({'step': 'filescraping recovery', 'exit': rc, 'got': sorted(got), 'expected': sorted(want), 'tail': out[-200:]})
+        elif name == 'C20':
+            os.makedirs(d + '/fin')
+            write_tree(d + '/fin', FILES)
+            open(d + '/tamper.sh', 'w').write('for f in $(find "$1" -type f); do printf Q >> "$f"; done\n')
+            for label, final in (('identical', FILES), ('one byte differs', dict(FILES, **{'a.bin': FILES['a.bin'][:-1] + b'\x00'}))):
+                shutil.rmtree(d + '/fin'); write_tree(d + '/fin', final)
+                open(d + '/repair.sh', 'w').write('cp -r "%s"/fin/. "$2"/\n' % d)
+                open(d + '/cfg', 'w').write('before_tamper:\n    true\ntamper:\n    sh %s/tamper.sh "{inputdir}"\nafter_tamper:\n    true\nrepair:\n    sh %s/repair.sh "{inputdir}" "{outputdir}"\n' % (d, d))
+                rc, out = pff(['resilience_tester', '-i', 'in', '-o', 'rt_out', '-c', 'cfg', '-f', '-l', 'rt.log'], d)
+                if (rc == 0) != (label == 'identical'):
+                    bad.append({'step': 'restest, final tree ' + label, 'exit': rc, 'expected': '0 iff identical', 'tail': out[-300:]})
     finally:
         shutil.rmtree(d, ignore_errors=True)
     return bad
